@@ -399,14 +399,15 @@ def apply_env(w, op):
 
 
 def trace_cfg(nprocs, use_writer):
-    return ("CONSTANTS Procs = {%s}  MaxVer = 100000  MaxNow = 100000  Magic = %d  UseWriter = %s\n"
+    return ("CONSTANTS Procs = {%s}  MaxVer = 100000  MaxNow = 100000  Magic = %d  UseWriter = %s  Failures = TRUE\n"
             "SPECIFICATION TSpec\nCHECK_DEADLOCK FALSE\n"
             % (", ".join(str(i) for i in range(1, nprocs + 1)), magic_number(), "TRUE" if use_writer else "FALSE"))
 
 
-def mc_cfg(nprocs, maxver, maxnow, use_writer):
-    return ("CONSTANTS Procs = {%s}  MaxVer = %d  MaxNow = %d  Magic = %d  UseWriter = %s\n" % (
-        ", ".join(str(i) for i in range(1, nprocs + 1)), maxver, maxnow, magic_number(), "TRUE" if use_writer else "FALSE")
+def mc_cfg(nprocs, maxver, maxnow, use_writer, failures=True):
+    return ("CONSTANTS Procs = {%s}  MaxVer = %d  MaxNow = %d  Magic = %d  UseWriter = %s  Failures = %s\n" % (
+        ", ".join(str(i) for i in range(1, nprocs + 1)), maxver, maxnow, magic_number(), "TRUE" if use_writer else "FALSE",
+        "TRUE" if failures else "FALSE")
         + "SPECIFICATION Spec\nINVARIANT ModuleIntegrity\nINVARIANT LaterLoadSucceeds\nINVARIANT NeverRaises\nINVARIANT RewriteWhenDue\n"
           "INVARIANT ReuseOtherwise\nINVARIANT RendersCurrent\nINVARIANT WriterExactlyWhenDue\nPROPERTY PublishedIsCurrentGen\nCHECK_DEADLOCK FALSE\n")
 
@@ -523,10 +524,12 @@ def check(run):
     # ------------------------------------------------------------------ 1. model checking
     mcs = [("mc-2p", 2, 2, 2, False), ("mc-2p-writer", 2, 2, 2, True)]
     if thorough:
-        mcs = [("mc-2p", 2, 3, 3, False), ("mc-2p-writer", 2, 3, 3, True), ("mc-3p", 3, 2, 2, False)]
+        # three processes: the interleavings are the point (time and versions are explored by the two-process instances)
+        mcs = [("mc-2p", 2, 3, 3, False), ("mc-2p-writer", 2, 3, 3, True), ("mc-3p", 3, 2, 1, False)]
     acts = {}
     for name, np_, mv, mn, uw in mcs:
-        res = run.tlc("ModuleFile", mc_cfg(np_, mv, mn, uw), name=name, coverage=True, timeout=3000, heap="12g" if thorough else None)
+        # three processes: crashes at every label, but no failing calls (those are exhaustive for two processes)
+        res = run.tlc("ModuleFile", mc_cfg(np_, mv, mn, uw, failures=np_ < 3), name=name, coverage=np_ < 3, timeout=3000, heap="12g" if thorough else None)
         if res.violated:
             run.spec_violation(res)
         for a, (d, g) in res.coverage.items():
